@@ -86,12 +86,13 @@ type Graph struct {
 }
 
 type G struct {
-	T       *simrt.Tape
-	n       int
-	MaxBlob int
-	pool    []*Blob // blobs available for sharing
-	Alg     string
-	NoExt   bool // never generate external (URL) layers
+	InlineChildren bool // Index: entries carry their child manifest as inline data
+	T              *simrt.Tape
+	n              int
+	MaxBlob        int
+	pool           []*Blob // blobs available for sharing
+	Alg            string
+	NoExt          bool // never generate external (URL) layers
 }
 
 func New(t *simrt.Tape) *G { return &G{T: t, MaxBlob: 600, Alg: "sha256"} }
@@ -343,6 +344,9 @@ func (g *G) Index(docker bool, children []*Node, blobKids []*Blob) *Node {
 	var ds []Desc
 	for i, c := range children {
 		d := Desc{MediaType: c.MediaType, Digest: c.Digest, Size: len(c.Raw)}
+		if g.InlineChildren {
+			d.Data = base64.StdEncoding.EncodeToString(c.Raw)
+		}
 		if c.Kind == "image" {
 			p := plats[i%len(plats)]
 			d.Platform = &p
